@@ -47,6 +47,11 @@ def feStep (st : FeSt) (tok : String) : Option FeSt :=
   let rest := (tok.drop 1).toString
   match c, st.stack with
   | 'L', s => do let b ← hexN? 32 rest; some { st with stack := (toNat b % P) :: s }
+  | 'B', s => do
+      -- `secp256k1_fe_get_bounds(r, m)`: every limb at the maximum the representation invariant allows for magnitude m;
+      -- in both limb layouts this is the integer 2·m·(2^256 − 1)
+      let m ← nat? rest
+      if m > 32 then none else some { st with stack := (2 * m * (2 ^ 256 - 1) % P) :: s }
   | 'A', b :: a :: s => some { st with stack := Fe.add a b :: s }
   | 'N', a :: s => some { st with stack := Fe.neg a :: s }
   | 'I', a :: s => do let k ← nat? rest; some { st with stack := Fe.mul a k :: s }
